@@ -6,7 +6,7 @@
 //
 //   cli <c> <origin kind> <mode>          client c (0..2): origin kind 0 literal IPv4 / 1 name "origin.test" / 2 bracketed IPv6 /
 //                                         3 unresolvable name / 4 refusing endpoint / 5 second origin by name; mode bit0: pipelined
-//   req <c> <port kind> <path kind> <host header 0/1> <extra headers 0..2> <method 0 GET/1 POST/2 HEAD>
+//   req <c> <port kind> <path kind 0..5, 4 and 5 with ':' / '@' after the authority> <host header 0/1> <extra headers 0..2> <method 0 GET/1 POST/2 HEAD>
 //                                         port kind 0 default (80: nothing can listen there, expect 503) / 1 :8080 / 2 :18081
 //   bad <c> <kind>                        after the requests: 0 non-absolute request / 1 malformed bytes
 //   cut <c> <offset> <gap us>
@@ -183,7 +183,7 @@ Verdict run_case(Case const& c, Ctx& ctx)
 	{
 		if (r.name == "cli" && r.a.size() >= 3 && r.a[0] >= 0 && r.a[0] < MAXCLI) { CliSpec& s = specs[r.a[0]]; s.present = true; s.okind = int(((r.a[1] % 6) + 6) % 6); s.mode = int(r.a[2] & 1); }
 		else if (r.name == "req" && r.a.size() >= 6 && r.a[0] >= 0 && r.a[0] < MAXCLI && specs[r.a[0]].reqs.size() < 4)
-			specs[r.a[0]].reqs.push_back(Req{int(((r.a[1] % 3) + 3) % 3), int(((r.a[2] % 4) + 4) % 4), int(r.a[3] & 1), int(((r.a[4] % 3) + 3) % 3), int(((r.a[5] % 3) + 3) % 3)});
+			specs[r.a[0]].reqs.push_back(Req{int(((r.a[1] % 3) + 3) % 3), int(((r.a[2] % 6) + 6) % 6), int(r.a[3] & 1), int(((r.a[4] % 3) + 3) % 3), int(((r.a[5] % 3) + 3) % 3)});
 		else if (r.name == "bad" && r.a.size() >= 2 && r.a[0] >= 0 && r.a[0] < MAXCLI) specs[r.a[0]].bad = int(r.a[1] & 1);
 		else if (r.name == "cut" && r.a.size() >= 3 && r.a[0] >= 0 && r.a[0] < MAXCLI && specs[r.a[0]].cuts.size() < 10) specs[r.a[0]].cuts.push_back({std::max(0LL, r.a[1]), std::max(0LL, std::min(1000000LL, r.a[2]))});
 		else if (r.name == "stop" && !r.a.empty()) R.stop_after = int(r.a[0]);
@@ -243,7 +243,7 @@ Verdict run_case(Case const& c, Ctx& ctx)
 				if (first_port < 0) first_port = port; else port = first_port; // one origin per client connection
 				std::string const portstr = port == 80 ? "" : ":" + std::to_string(port);
 				if (port == 80) ex.expect503 = true;
-				static char const* paths[] = {"/", "/a/b?x=1&y=2", "", "/deep/../path/file.bin"};
+				static char const* paths[] = {"/", "/a/b?x=1&y=2", "", "/deep/../path/file.bin", "/wiki/Help:Contents?t=12:30&to=10.0.0.2:9999", "/@user:pw/x"}; // colons and an at-sign after the authority
 				static char const* methods[] = {"GET", "POST", "HEAD"};
 				std::string const url = "http://" + hostlit + portstr + paths[q.pathk];
 				std::string hdrs;
@@ -393,7 +393,7 @@ Rec mk(char const* name, std::vector<long long> a) { Rec r; r.name = name; r.a =
 rc::Gen<Case> gen_case()
 {
 	auto client = [](long long c) {
-		auto req = rc::gen::map(rc::gen::tuple(kit::range(0, 2), kit::range(0, 3), kit::range(0, 1), kit::range(0, 2), kit::weighted({{4, 0}, {1, 1}, {1, 2}})),
+		auto req = rc::gen::map(rc::gen::tuple(kit::range(0, 2), kit::range(0, 5), kit::range(0, 1), kit::range(0, 2), kit::weighted({{4, 0}, {1, 1}, {1, 2}})),
 			[c](std::tuple<long long, long long, long long, long long, long long> t) { return mk("req", {c, std::get<0>(t), std::get<1>(t), std::get<2>(t), std::get<3>(t), std::get<4>(t)}); });
 		auto cut = rc::gen::map(rc::gen::pair(kit::range(1, 350), kit::weighted({{3, 0}, {2, 200}, {2, 30000}, {1, 400000}})), [c](std::pair<long long, long long> p) { return mk("cut", {c, p.first, p.second}); });
 		return rc::gen::map(rc::gen::tuple(kit::weighted({{3, 0}, {3, 1}, {2, 2}, {1, 3}, {1, 4}, {2, 5}}), kit::weighted({{3, 1}, {2, 0}}), rc::gen::container<std::vector<Rec>>(req), rc::gen::container<std::vector<Rec>>(cut), kit::weighted({{6, -1}, {1, 0}, {1, 1}})),
